@@ -47,5 +47,13 @@ X == INSTANCE Extras WITH
        DynCenter <- DynCenterR, DynTol <- B!FromInt(30), FarTol <- B!FromInt(100),
        F64MulUnit <- F64MulUnitR
 W == INSTANCE WeekdayMachine
+(* the system machine: the same registers, the cross-type calls (Hifitime.tla) *)
+H == INSTANCE Hifitime WITH
+       NPC <- NPCr, CMIN <- -32768, CMAX <- 32767,
+       N <- B!FromInt, I <- B!ToInt,
+       Add <- B!Add, Sub <- B!Sub, Mul <- B!Mul, QuotT <- B!QuotT,
+       DivF <- B!DivF, ModF <- B!ModF, Lt <- B!Lt, Le <- B!Le, U <- Ur,
+       Ref <- RefR, Leap <- LeapR, GregDay <- GregDayR, GregTod <- GregTodR,
+       DynCenter <- DynCenterR, DynTol <- B!FromInt(30), FarTol <- B!FromInt(100)
 
 =============================================================================
